@@ -164,7 +164,7 @@ def site_stream(mmv, pkg, shapes=((0, 0), (1, 3), (2, 1), (3, 0), (3, 3), (4, 2)
                 customs = ["zz/custom.value", ""] if "" not in vals else ["zz/custom.value"]
             else:
                 ints = sorted(v for v in vals if isinstance(v, int))
-                customs = [c for c in {max(ints) + 1, ints[0] + ints[-1] if len(ints) > 1 else ints[0] + 7, sum(ints)} if c not in vals and 0 <= c < 2**31]
+                customs = [c for c in {max(ints) + 1, ints[0] + ints[-1] if len(ints) > 1 else ints[0] + 7, sum(ints), 2**31 - 1} if c not in vals and 0 <= c < 2**31]
             base = mmv.value(mmlib.ref(sn), 0, 0, 0)
             for cv in customs:
                 j = dict(base)
@@ -749,6 +749,13 @@ def check_property(chk, prop, streams, extra_gen=()):
                        "dispatch_trace_keys": keys, "others": [{"site": u[0]["case"].get("site"), "what": u[1][0][:120]} for u in unknown[1:15]],
                        "all_unlisted": [{"site": u[0]["case"].get("site"), "target": u[0]["case"]["target"], "keys": u[2]} for u in unknown[:400]],
                        "broken": [x[:2] for x in fails]})
+    elif fails and (hist := history_search(prop, cases)) is not None:
+        # no single input fails in the order of the stream, but the converter's answers depend on what it handled BEFORE
+        chk.violation({"property": prop, "kind": "real converter violates the property on a metamodel-valid input after a history of other inputs",
+                       "input": {"target": hist["case"]["target"], "json": hist["case"]["input"], "site": hist["case"].get("site"),
+                                 "history": [{"target": h["target"], "json": h["input"]} for h in hist["history"]]},
+                       "what": hist["what"], "broken": [x[:2] for x in fails],
+                       "note": "one converter: structure + unstructure the history entries in order, then the input"})
     elif fails:
         chk.violation({"property": prop, "kind": "obligation no longer checks", "broken": [{"what": a, "name": b, "detail": c} for a, b, c in fails],
                        "missing_handlers": chk.extra.get("missing_handlers"),
@@ -789,6 +796,62 @@ def confirm_witness(prop, o):
     return any(p_ == prop for p_, _ in judge(dict(c, kind="site"), r))
 
 
+def history_search(prop, cases, budget=14):
+    """When obligations broke but no input fails in stream order: run the real converter on the same valid inputs in other orders
+    (reversed, rotated) — every case is a fresh judgement, so a failure here means the result depends on the converter's history.
+    The failing order is then cut down to a short history (prefix bisection, then greedy removal)."""
+    import copy as _copy
+    valid_cases = [c for c in cases if c.get("kind") != "hook-fuzz"]
+    if not valid_cases:
+        return None
+
+    def fails_in(order):
+        try:
+            real = CS.real_run(order)["results"]
+        except Exception:
+            return None
+        for i, (c, r) in enumerate(zip(order, real)):
+            mine = [d for p_, d in judge(c, r) if p_ == prop]
+            if mine:
+                return i, mine
+        return None
+    n = len(valid_cases)
+    for order in (list(reversed(valid_cases)), valid_cases[n // 2:] + valid_cases[:n // 2], valid_cases[n // 3:] + valid_cases[:n // 3]):
+        hit = fails_in(order)
+        if hit is None:
+            continue
+        i, mine = hit
+        target = order[i]
+        hist = order[:i]
+        # the target alone must pass (otherwise it would have failed in stream order too)
+        if fails_in([target]) is not None:
+            return {"case": target, "history": [], "what": mine}
+        # shrink the history: keep halves while the failure persists
+        runs = 0
+        while len(hist) > 1 and runs < budget:
+            runs += 1
+            half = len(hist) // 2
+            a, b = hist[:half], hist[half:]
+            if (h := fails_in(b + [target])) is not None and h[0] == len(b):
+                hist = b
+            elif (h := fails_in(a + [target])) is not None and h[0] == len(a):
+                hist = a
+            else:
+                break
+        # greedy single removals on what is left (bounded)
+        j = 0
+        while j < len(hist) and len(hist) <= 40 and runs < budget + 40:
+            runs += 1
+            cand = hist[:j] + hist[j + 1:]
+            h = fails_in(cand + [target])
+            if h is not None and h[0] == len(cand):
+                hist = cand
+            else:
+                j += 1
+        return {"case": target, "history": hist[-60:], "what": mine}
+    return None
+
+
 def replay_property(prop, path):
     r = json.load(open(path))
     inp = r.get("input")
@@ -796,6 +859,17 @@ def replay_property(prop, path):
         print("no concrete input recorded")
         return 1
     c = {"target": inp["target"], "input": inp["json"], "kind": "site"}
+    if inp.get("history"):
+        order = [{"target": h["target"], "input": h["json"], "kind": "site"} for h in inp["history"]] + [c]
+        for x in order:
+            attach_types(mmlib.MMView(), [x]) if False else None
+        res = CS.real_run(order)["results"][-1]
+        mmv = mmlib.MMView()
+        c["mmty"] = "(TRef %s)" % V.q(c["target"]) if c["target"] in mmv.S else None
+        attach_types(mmv, [c])
+        v = [d for p_, d in judge(c, res) if p_ == prop]
+        print("still violates after the recorded history:" if v else "no longer violates", v[:2])
+        return 1 if v else 0
     res = CS.real_run([c])["results"][0]
     v = [d for p_, d in judge(c, res) if p_ == prop]
     print("still violates:" if v else "no longer violates", v[:2])
